@@ -1556,6 +1556,92 @@ example : deriveVolumeAndArea 10 2 [3, 4] [3 / 2, 2] = some (13, 13 / 2) := by d
 example : (13 / 2 : Rat) + sumBy id [3 / 2, 2] = 10 :=
   derived_closes_area 10 2 13 (13 / 2) [3, 4] [3 / 2, 2] (by norm_num) (by norm_num) (by decide +kernel)
 
+/-! ### mass fractions of nuclides that are NEW to a component -/
+
+private theorem comp_setMany_ndens (ph : Phys) (as : NDens) :
+    ∀ c : Comp, (setMany (compOps ph) c as).nd = NDens.update c.nd as := by
+  induction as with
+  | nil => intro c; rfl
+  | cons q as ih =>
+    intro c
+    have h1 : setMany (compOps ph) c (q :: as) = setMany (compOps ph) ((compOps ph).setND c q.1 q.2) as := rfl
+    rw [h1, ih]
+    simp [compOps, NDens.update]
+
+/-- component level, no presence hypothesis: after `setMassFracs(mf)` every listed nuclide — held before or not —
+has `f·ρ·K/A`, every other nuclide held before shares `1 − Σf` in the old proportions, nothing else appears -/
+theorem comp_setMassFracs_nd (ph : Phys) (c : Comp) (mf : NDens)
+    (hnodC : NodupKeys c.nd) (hnodM : NodupKeys mf)
+    (htot : sumBy (fun p => p.2 * ph.aw p.1) (ndDict (compOps ph) c) ≠ 0)
+    (hother : sumBy (fun q => q.2) ((massFracs (compOps ph) ph c).filter (fun q => !NDens.has mf q.1)) ≠ 0)
+    (k : Nuc) :
+    (compOps ph).nd (setMassFracs (compOps ph) ph c mf) k =
+      if NDens.has mf k then NDens.get mf k * density (compOps ph) ph c * ph.K / ph.aw k
+      else if NDens.has c.nd k then
+        (1 - sumBy (fun q => q.2) mf) * (oldFrac (compOps ph) ph c k /
+          sumBy (fun q => q.2) ((massFracs (compOps ph) ph c).filter (fun q => !NDens.has mf q.1)))
+          * density (compOps ph) ph c * ph.K / ph.aw k
+      else 0 := by
+  rw [setMassFracs_eq_setMany]
+  have hmf := massFracs_eq (o := compOps ph) (ph := ph) c htot
+  have hnucs : (compOps ph).nucs c = NDens.keys c.nd := rfl
+  set others := (massFracs (compOps ph) ph c).filter (fun q => !NDens.has mf q.1) with hoth
+  have hothers_has : ∀ n, NDens.has others n = (NDens.has c.nd n && !NDens.has mf n) := by
+    intro n
+    rw [hoth, has_filterKey (massFracs (compOps ph) ph c) (fun k => !NDens.has mf k) n, hmf, has_eq_contains,
+      keys_mapPair, hnucs, ← has_eq_contains]
+  have hothers_get : ∀ n, NDens.has c.nd n = true → NDens.has mf n = false →
+      NDens.get others n = oldFrac (compOps ph) ph c n := by
+    intro n hn hm
+    have hn' : n ∈ (compOps ph).nucs c := by
+      rw [hnucs]; rw [has_eq_contains] at hn; simpa using hn
+    rw [hoth, get_filterKey (massFracs (compOps ph) ph c) (fun k => !NDens.has mf k) n (by simp [hm]), hmf,
+      get_mapPair _ _ _ hn']
+  have hothers_keys : NDens.keys others = (NDens.keys c.nd).filter (fun k => !NDens.has mf k) := by
+    rw [hoth, keys_filterKey_sub (massFracs (compOps ph) ph c) (fun k => !NDens.has mf k), hmf, keys_mapPair, hnucs]
+  have hass : smfAssignments (compOps ph) ph c mf =
+      mf.map (fun q => (q.1, q.2 * density (compOps ph) ph c * ph.K / ph.aw q.1)) ++
+        others.map (fun q => (q.1, (1 - sumBy (fun q => q.2) mf) * (q.2 / sumBy (fun q => q.2) others)
+          * density (compOps ph) ph c * ph.K / ph.aw q.1)) := by
+    unfold smfAssignments
+    simp only [← hoth]
+    rw [if_pos hother]
+  rw [hass]
+  set as1 := mf.map (fun q => (q.1, q.2 * density (compOps ph) ph c * ph.K / ph.aw q.1)) with has1
+  set as2 := others.map (fun q => (q.1, (1 - sumBy (fun q => q.2) mf) * (q.2 / sumBy (fun q => q.2) others)
+          * density (compOps ph) ph c * ph.K / ph.aw q.1)) with has2
+  have hk1 : NDens.keys as1 = NDens.keys mf := by
+    unfold NDens.keys; rw [has1, List.map_map]; rfl
+  have hk2 : NDens.keys as2 = NDens.keys others := by
+    unfold NDens.keys; rw [has2, List.map_map]; rfl
+  have hnodup : NodupKeys (as1 ++ as2) := by
+    unfold NodupKeys
+    have : NDens.keys (as1 ++ as2) = NDens.keys as1 ++ NDens.keys as2 := by
+      unfold NDens.keys; rw [List.map_append]
+    rw [this, hk1, hk2, hothers_keys]
+    refine List.nodup_append.mpr ⟨hnodM, hnodC.filter _, ?_⟩
+    intro x hx1 y hy2 hxy
+    subst hxy
+    have : NDens.has mf x = true := by rw [has_eq_contains]; simpa using hx1
+    simp [List.mem_filter, this] at hy2
+  show NDens.get (setMany (compOps ph) c (as1 ++ as2)).nd k = _
+  rw [comp_setMany_ndens, get_update _ _ _ hnodup, has_append, get_append]
+  have h1has : NDens.has as1 k = NDens.has mf k := by rw [has1]; exact has_mapVal mf _ k
+  have h2has : NDens.has as2 k = NDens.has others k := by rw [has2]; exact has_mapVal others _ k
+  by_cases hm : NDens.has mf k = true
+  · rw [h1has, hm]
+    simp only [Bool.true_or, if_true]
+    rw [has1, get_mapVal mf _ k hm]
+  · have hm' : NDens.has mf k = false := by simpa using hm
+    rw [h1has, h2has, hm', hothers_has, hm']
+    by_cases hc : NDens.has c.nd k = true
+    · have ho : NDens.has others k = true := by rw [hothers_has, hc, hm']; rfl
+      simp only [hc, Bool.not_false, Bool.and_self, Bool.false_or, if_true, Bool.false_eq_true, if_false]
+      rw [has2, get_mapVal others _ k ho, hothers_get k hc hm']
+    · have hc' : NDens.has c.nd k = false := by simpa using hc
+      simp only [hc', Bool.false_and, Bool.false_or, Bool.false_eq_true, if_false]
+      exact get_absent c.nd k (by rw [← has_eq_contains]; exact hc')
+
 /-! ### nuclide selections: nuclide, element symbol, list -/
 
 private theorem sumBy_comm {β γ : Type} (f : β → γ → Rat) (l1 : List β) (l2 : List γ) :
